@@ -18,6 +18,17 @@ git apply "$SRC/patch.diff" || { echo "$NAME: patch does not apply"; exit 3; }
 timeout 900 /venv/bin/python "$WT/demo_seed.py" >/tmp/mw/$NAME.patched.log 2>&1; PATCHED=$?
 timeout 2400 /venv/bin/python -m pytest -q -p no:cacheprovider --timeout=900 tests >/tmp/mw/$NAME.tests.log 2>&1; TESTS=$?
 SUMMARY=$(tail -1 /tmp/mw/$NAME.tests.log)
+if [ "$TESTS" != 0 ]; then
+  # the suite has load-sensitive tests (real sockets, timing): re-run only the failed tests, alone
+  FAILED=$(grep -E "^(FAILED|ERROR) " /tmp/mw/$NAME.tests.log | awk '{print $2}' | sort -u)
+  if [ -n "$FAILED" ] && [ "$(echo "$FAILED" | wc -l)" -le 3 ]; then
+    if timeout 900 /venv/bin/python -m pytest -q -p no:cacheprovider --timeout=900 $FAILED >/tmp/mw/$NAME.retest.log 2>&1 \
+       && timeout 900 /venv/bin/python -m pytest -q -p no:cacheprovider --timeout=900 $FAILED >>/tmp/mw/$NAME.retest.log 2>&1; then
+      TESTS=0
+      SUMMARY="$SUMMARY; the failed test(s) $(echo $FAILED) passed twice when re-run alone (load-sensitive)"
+    fi
+  fi
+fi
 echo "$NAME: demo_clean_rc=$CLEAN demo_patched_rc=$PATCHED tests_rc=$TESTS ($SUMMARY)"
 if [ "$CLEAN" = 0 ] && [ "$PATCHED" != 0 ] && [ "$TESTS" = 0 ]; then
   mkdir -p "$OUT"
